@@ -160,8 +160,11 @@ impl BuildJob<'_> {
             if !sf.is_override {
                 log_warn!("{:?} - old: {:?}\n", &nice_t, &sf.stamp);
                 log_warn!("{:?} - old: {:?}\n", &nice_t, &newstamp);
-                sf.set_override(ptx.state().env())?;
             }
+            // Also when the file is already marked as overridden: the user
+            // may have edited it again, and a stale stamp would make
+            // everything that depends on it look dirty forever.
+            sf.set_override(ptx.state().env())?;
             sf.save(&mut ptx)?;
             // Fall through and treat it the same as a static file.
         }
